@@ -5,6 +5,7 @@ import (
 	"go/ast"
 	"go/token"
 	"go/types"
+	"os"
 	"regexp"
 	"sort"
 	"strings"
@@ -97,6 +98,7 @@ func isPointSlice(t types.Type) bool {
 func runC10(c *core.Ctx) {
 	c.Rule("C10.cow", "A4: on every path, the target of every message Set*, of every store/delete on a models.Fields/models.Tags map and of every element store into a []BatchPointMessage is owned: derived from ShallowCopy/Copy/make/literal/constructor, an owned-only parameter, or an owned-only struct field")
 	c.Rule("C10.dims", "A4: a slice obtained from a message's Dimensions()/TagNames is not filtered or appended to in place (x[:0], append(x[:i]…)): it is the grouping node's own slice, shared by every point")
+	c.Rule("C10.keep", "A1: EvalNode.eval assembles the emitted fields by the documented table: keep(list) takes each kept name from the expression scope when the scope has it and from the raw fields only otherwise (unknown name: error); bare keep() copies the raw fields first and stores the expression results over them; without keep only the non-tag results are emitted — a result named like an existing field replaces it in every form")
 	c.Rule("C10.skel", "A1: guard skeletons of stateful per-point nodes: every per-group BeginBatch resets its per-batch state on every non-error path (not only when the size hint is positive); state tracking discards a point whose predicate failed without touching the tracker; eval drops a point whose expression failed whatever the quiet flag (quiet only silences the log); derivative resets its previous point at every BeginBatch, stores the previous point iff the current one parses, emits iff both parse ∧ elapsed≠0 ∧ ¬(nonNegative ∧ diff<0)")
 
 	x := &c10Ctx{c: c, fieldOK: map[*types.Var]int{}, paramOK: map[string]int{}, funcs: map[*types.Func]*core.Func{}, callers: map[*types.Func][]c10Call{}}
@@ -149,6 +151,7 @@ func runC10(c *core.Ctx) {
 	if root := c.P.Pkg(""); root != nil {
 		c10Dims(c, x.pkgs)
 		c10Skel(c, root)
+		c10Keep(c, root)
 	}
 }
 
@@ -1020,17 +1023,75 @@ func c10Skel(c *core.Ctx, root *packages.Package) {
 		}
 	}
 	// derivative: doDerivative guard table
-	if fn := c.Need("C10.skel", "", "derivativeGroup", "doDerivative"); fn != nil {
-		eng := &an.Engine{Prog: c.P, BoolReturns: true,
+	if fn := c.Need("C10.skel", "", "DerivativeNode", "derivative"); fn != nil {
+		// (value, store, emit): the reference is the function's own contract ("we only return store=true if current parses
+		// successfully") plus the documented drops
+		prevP, currP := an.ParamName(fn.Decl.Type, 0), an.ParamName(fn.Decl.Type, 1)
+		eng := &an.Engine{Prog: c.P,
 			Classify: func(a an.Atom) (string, bool) {
 				k := a.Key
 				switch {
+				case an.CallResultOf(k, "numToFloat", 1) && strings.Contains(k, "("+currP+"["):
+					return "currok", false
+				case an.CallResultOf(k, "numToFloat", 1) && strings.Contains(k, "("+prevP+"["):
+					return "prevok", false
 				case strings.HasSuffix(k, ".NonNegativeFlag"):
 					return "nonneg", false
 				case a.Op == token.LSS && a.R == "0" && strings.Contains(a.L, "-"):
 					return "negative", false
-				case a.Op == token.EQL && a.R == "0" && strings.Contains(strings.ToLower(a.L), "sub("):
+				case a.Op == token.GTR && a.L == "0" && strings.Contains(a.R, "-"):
+					return "negative", false
+				case a.Op == token.EQL && a.R == "0" && strings.Contains(a.L, ".Sub("):
 					return "noelapsed", false
+				case a.Op == token.EQL && a.L == "0" && strings.Contains(a.R, ".Sub("):
+					return "noelapsed", false
+				}
+				return "", false
+			}}
+		paths, err := eng.Run(fn)
+		if err != nil {
+			c.Undecided("C10.skel", "DerivativeNode.derivative", fn.Decl.Pos(), "%v", err)
+		} else {
+			an.CheckTable(c, "C10.skel", "DerivativeNode.derivative", paths, an.Table{Atoms: []string{"currok", "prevok", "noelapsed", "nonneg", "negative"},
+				Outcome: func(p *an.Path) string {
+					if len(p.Rets) != 3 {
+						return "?"
+					}
+					return "store=" + p.Rets[1] + ",emit=" + p.Rets[2]
+				},
+				Expect: func(a map[string]bool) string {
+					switch {
+					case !a["currok"]:
+						return "store=false,emit=false"
+					case !a["prevok"], a["noelapsed"], a["nonneg"] && a["negative"]:
+						// the point is dropped but becomes the new previous: the next derivative is taken against it, not against an older point
+						return "store=true,emit=false"
+					}
+					return "store=true,emit=true"
+				}})
+		}
+	}
+	if fn := c.Need("C10.skel", "", "derivativeGroup", "doDerivative"); fn != nil {
+		// doDerivative obeys the two flags: previous := p iff store; a result is set and true returned iff emit
+		eng := &an.Engine{Prog: c.P, BoolReturns: true,
+			TrackStore: func(lhs ast.Expr, key string) string {
+				if an.FieldSel(info, lhs, "derivativeGroup", "previous") {
+					return "previous"
+				}
+				return ""
+			},
+			TrackCall: func(call *ast.CallExpr, callee *types.Func) string {
+				if callee != nil && callee.Name() == "SetFields" {
+					return "SetFields"
+				}
+				return ""
+			},
+			Classify: func(a an.Atom) (string, bool) {
+				switch {
+				case an.CallResultOf(a.Key, "derivative", 1):
+					return "store", false
+				case an.CallResultOf(a.Key, "derivative", 2):
+					return "emit", false
 				}
 				return "", false
 			}}
@@ -1038,21 +1099,159 @@ func c10Skel(c *core.Ctx, root *packages.Package) {
 		if err != nil {
 			c.Undecided("C10.skel", "derivativeGroup.doDerivative", fn.Decl.Pos(), "%v", err)
 		} else {
-			// necessary conditions only: a result is never produced when elapsed is zero or (nonNegative ∧ negative)
-			good := len(paths) > 0
-			for _, p := range paths {
-				a := p.Assign()
-				produced := len(p.Rets) == 2 && p.Rets[1] == "true"
-				if produced && (a["noelapsed"] || (a["nonneg"] && a["negative"])) {
-					good = false
-					c.Fail("C10.skel", "derivativeGroup.doDerivative#guards", p.RetPos, "a derivative is produced although elapsed time is zero or the difference is negative under nonNegative: [%s]", p.Cond())
-				}
-			}
-			if good {
-				c.Ok("C10.skel", "derivativeGroup.doDerivative#guards")
-			}
+			cur := an.ParamName(fn.Decl.Type, 0)
+			an.CheckTable(c, "C10.skel", "derivativeGroup.doDerivative", paths, an.Table{Atoms: []string{"store", "emit"},
+				Outcome: func(p *an.Path) string {
+					var w []string
+					for _, e := range p.Events {
+						if e.Kind == "store" && e.Name == "previous" {
+							if len(e.Args) == 1 && e.Args[0] == cur {
+								w = append(w, "previous=current")
+							} else {
+								w = append(w, "previous=other")
+							}
+						} else if e.Name == "SetFields" {
+							w = append(w, "SetFields")
+						}
+					}
+					if len(p.Rets) == 1 {
+						w = append(w, "ret="+p.Rets[0])
+					}
+					return strings.Join(w, ",")
+				},
+				Expect: func(a map[string]bool) string {
+					var w []string
+					if a["store"] {
+						w = append(w, "previous=current")
+					}
+					if a["emit"] {
+						w = append(w, "SetFields", "ret=true")
+					} else {
+						w = append(w, "ret=false")
+					}
+					return strings.Join(w, ",")
+				}})
 		}
 	}
+}
+
+// c10Keep: the field set eval emits: keep(list) takes a kept name from the expression scope first and from the raw fields only
+// when the scope does not have it; bare keep() copies the raw fields first and the expression results over them; without keep only
+// the non-tag results are emitted. (So a result stored under the name of an existing field replaces it in every form.)
+func c10Keep(c *core.Ctx, pkg *packages.Package) {
+	info := pkg.TypesInfo
+	fn := c.Need("C10.keep", "", "EvalNode", "eval")
+	if fn == nil {
+		return
+	}
+	// the local that holds the point's raw fields (x := p.Fields())
+	raw := ""
+	ast.Inspect(fn.Decl.Body, func(nd ast.Node) bool {
+		if as, ok := nd.(*ast.AssignStmt); ok && len(as.Lhs) == 1 && len(as.Rhs) == 1 {
+			if call, ok := as.Rhs[0].(*ast.CallExpr); ok && len(call.Args) == 0 {
+				if sel, ok := call.Fun.(*ast.SelectorExpr); ok && sel.Sel.Name == "Fields" {
+					if id, ok := as.Lhs[0].(*ast.Ident); ok && raw == "" {
+						raw = id.Name
+					}
+				}
+			}
+		}
+		return true
+	})
+	if raw == "" {
+		c.Undecided("C10.keep", "EvalNode.eval#raw", fn.Decl.Pos(), "the local holding p.Fields() was not found")
+		return
+	}
+	eng := &an.Engine{Prog: c.P, ElemKeys: true,
+		TrackStore: func(lhs ast.Expr, key string) string {
+			if ix, ok := ast.Unparen(lhs).(*ast.IndexExpr); ok {
+				if tv, ok := info.Types[ix.X]; ok && core.NamedOf(tv.Type) != nil && core.NamedOf(tv.Type).Obj().Name() == "Fields" {
+					return "put"
+				}
+			}
+			return ""
+		},
+		Classify: func(a an.Atom) (string, bool) {
+			k := a.Key
+			switch {
+			case strings.HasSuffix(k, ".KeepFlag"):
+				return "keep", false
+			case a.Op == token.NEQ && a.R == "0" && strings.HasPrefix(a.L, "len(") && strings.Contains(a.L, ".KeepList"):
+				return "list", false
+			case a.Op == token.EQL && a.R == "0" && strings.HasPrefix(a.L, "len(") && strings.Contains(a.L, ".KeepList"):
+				return "list", true
+			case a.Call != nil && a.Call.Name() == "Has":
+				return "inscope", false
+			case strings.HasSuffix(k, "].1") && strings.HasPrefix(k, raw+"["):
+				return "infields", false
+			case a.Op == token.EQL && a.R == "nil" && an.CallResultOf(a.L, "Get", 1):
+				return "getok", false
+			case a.Op == token.NEQ && a.R == "nil" && an.CallResultOf(a.L, "Get", 1):
+				return "getok", true
+			case strings.Contains(k, ".tags["):
+				return "istag", false
+			}
+			return "", false
+		}}
+	paths, err := eng.RunRegion(fn, func(st ast.Stmt) bool {
+		is, ok := st.(*ast.IfStmt)
+		return ok && is.Init == nil && strings.HasSuffix(types.ExprString(is.Cond), ".KeepFlag")
+	})
+	if err != nil {
+		c.Undecided("C10.keep", "EvalNode.eval", fn.Decl.Pos(), "%v", err)
+		return
+	}
+	src := func(v string) string {
+		switch {
+		case strings.Contains(v, ".Get("):
+			return "scope"
+		case strings.HasPrefix(v, raw+"["):
+			return "raw"
+		}
+		return "other:" + v
+	}
+	an.CheckTable(c, "C10.keep", "EvalNode.eval", paths, an.Table{Atoms: []string{"keep", "list", "inscope", "infields", "getok", "istag"},
+		Outcome: func(p *an.Path) string {
+			var w []string
+			for _, e := range p.Events {
+				if e.Kind == "store" && e.Name == "put" && len(e.Args) == 1 {
+					w = append(w, src(e.Args[0]))
+				}
+			}
+			if len(p.Rets) == 1 && p.Rets[0] != "nil" && p.Rets[0] != "err" && p.Rets[0] != "" {
+				w = append(w, "error")
+			}
+			if os.Getenv("KAPDEBUG_KEEP") != "" {
+				fmt.Fprintf(os.Stderr, "KEEP cond=[%s] word=%v rets=%v events=%s\n", p.Cond(), w, p.Rets, p.Word())
+			}
+			return strings.Join(w, ",")
+		},
+		Expect: func(a map[string]bool) string {
+			switch {
+			case a["keep"] && a["list"]:
+				switch {
+				case a["inscope"] && a["getok"]:
+					return "scope"
+				case a["inscope"]:
+					return "error"
+				case a["infields"]:
+					return "raw"
+				}
+				return "error"
+			case a["keep"]:
+				if a["getok"] {
+					return "raw,scope"
+				}
+				return "raw,error"
+			}
+			switch {
+			case a["istag"]:
+				return ""
+			case a["getok"]:
+				return "scope"
+			}
+			return "error"
+		}})
 }
 
 // collectionField: key is <recv>.<field>[…]<rest> for a field of the receiver's struct → (field, rest).
